@@ -1,3 +1,4 @@
 #!/bin/bash
 # runs the repository's baseline test suite (hooks: none exist) and prints a one-line summary
 cd /repo && cargo test --workspace --no-fail-fast --offline 2>&1 | grep -E "^test result|FAILED|panicked at|^error" | head -40
+find /repo -maxdepth 1 -name 'test_output_*' -type d -empty -delete 2>/dev/null || true
